@@ -92,7 +92,9 @@ class Builder:
                 sh.closure(dead, True)
             else: sh.set(i, 'U'); sh.root[i] = False
             return True
-        self.emit(f'{kind} {i} {self.all[i]}')
+        # allocator dimension: the same entry kind through new_with & co. on a type WITHOUT an Alloc instance (calloc path of alloc_by)
+        pk = 'p' + kind if kind in ('new', 'newroot', 'newraw') and rng.random() < 0.4 else kind
+        self.emit(f'{pk} {i} {self.all[i]}')
         if kind == 'newraw' or not sh.running: sh.set(i, 'U'); sh.root[i] = False
         else: sh.set(i, 'M'); sh.root[i] = kind == 'newroot'
         return True
@@ -224,6 +226,8 @@ class Builder:
         elif r < p_new + 0.495: self.delraw()
         elif r < p_new + 0.510: self.delnull()
         elif r < p_new + 0.535: self.stalemark() or self.mem()
+        elif r < p_new + 0.565: self.emit('show')
+        elif r < p_new + 0.575: self.emit('teardown')
         else: self.new() or self.mem()
 
 def mixed_case(rng, name, fam_k, n_ids, n_ops, waves=3):
@@ -238,10 +242,13 @@ def mixed_case(rng, name, fam_k, n_ids, n_ops, waves=3):
 def grow_case(rng, name, fam_k, n_ids, every=1, kills=True):
     """up through the primes, then down again by deletions and by collections, twice"""
     b = Builder(rng, fam_k, n_ids)
+    small = len(b.all) <= 600     # `teardown` forks the harness: the cost grows with the number of arena pages mapped (one per object)
     if every > 1: b.emit(f'dumpevery {every}')
     for rnd in range(2):
         while b.new(kind=rng.choices(['new', 'newroot'], [9, 1])[0]):
             if rng.random() < 0.03: b.mem()
+            if small and rng.random() < 0.004: b.emit('show')
+            if small and rng.random() < 0.002: b.emit('teardown')
             if kills and rng.random() < 0.02: b.kill()
             if kills and rng.random() < 0.004: b.delnull()
             if kills and rng.random() < 0.004: b.delraise()
@@ -252,6 +259,8 @@ def grow_case(rng, name, fam_k, n_ids, every=1, kills=True):
         else:
             for m in (7, 5, 3, 2, 2, 2, 2, 1):
                 b.sweepmod(m, 0) if m > 1 else b.sweep(p=0.0)
+                if small or m in (7, 1): b.emit('show')      # GC_Show builds its text with one print_to per slot: seconds for a 10^4-slot table under ASan
+                if small and m in (5, 2): b.emit('teardown')
                 for _ in range(5): b.mem()
             for i in b.sh.ids('M'): b.emit(f'delroot {i}'); b.sh.set(i, 'D'); b.sh.closure([i], True)
     return Case(name, b.lines)
@@ -307,6 +316,14 @@ class C17(Spec):
                   'destructors keeps table, mem, count, bounds exact for a sub-ledger of the survivors, what is still listed is reclaimed and '
                   'unregistered, Exact when no exception left the loop; C17_dtor_raise_refuted (known finding KF-C17-dtor-raise: the exception leaves '
                   'the release loop, the pending list stays set outside a collection, the objects still listed are neither registered nor finalised). '
+                  'Public entrances (extension round; Cello/RegistryApi.lean, tables read from src/Alloc.c by g_reg.py): C17_alloc_routes_current_source / '
+                  'C17_del_routes_current_source — alloc, new_with and the default copy register a managed object, alloc_root / new_root_with a root, '
+                  'alloc_raw / new_raw_with nothing; del and del_root go through GC_Rem only, del_raw past the collector — computed by an interpreter over the '
+                  'extracted `switch (method)` rows, wrapper rows and allocator branches, for a type with and without its own Alloc instance; '
+                  'C17_alloc_branches_only_allocate, C17_registration_ignores_allocator (every entry name); C17_registry_exact_api / C17_progress_api: the history '
+                  'theorem over histories of public calls routed by those tables; C17_show_lists_registry: after every such history GC_Show prints one row per '
+                  'slot, the occupied rows are exactly the live managed objects with their allocation-time root flag and a blank mark column, no address twice; '
+                  'C17_init_current_source: the state built from the statements of GC_New is the model\'s initial state. '
                   'C17_invB_sound: the executable '
                   'invariant the driver evaluates implies the propositional one. Source-derived: GC_Ideal_Size(n) > n over the generated prime table '
                   'and load factor, GC_Probe = cyclic distance, GC_Hash = p/8. The model is tied to the real GC.c by comparing the complete entry '
@@ -316,8 +333,11 @@ class C17(Spec):
                   '(compared exhaustively with the C function on a range); malloc returning distinct live blocks is the distinctness assumption. '
                   'With destructors that delete other objects the ledger transition of a collection is a relation (it depends on the order in which '
                   'the sweep lists the reclaimed objects), not a function of the history. '
+                  'alloc_by / del_by are read as tables (allocator branches, switch rows, wrappers): a source outside that fragment is a broken tie, not a modelled behaviour. '
                   'Not covered: the mark phase itself (C01), finalisation accounting (C06), other threads (C13), allocation inside destructors.')
-    rule = ('histories of new/newroot/newraw/tnew/tnewx(threshold path of GC_Set, exact: marks reduced to roots+listed+new between the real GC_Mark and '
+    rule = ('histories of new/newroot/newraw (alloc / alloc_root / alloc_raw of a type WITH its own Alloc instance) / pnew/pnewroot/pnewraw (new / new_root / '
+            'new_raw of a type WITHOUT one: calloc path of alloc_by, free path of dealloc, both served from the arena by macros in h_reg.c) / show (GC_Show text, '
+            'rows against the ledger) / teardown (GC_Del in a forked child, observed at its free(gc->entries)) / tnew/tnewx(threshold path of GC_Set, exact: marks reduced to roots+listed+new between the real GC_Mark and '
             'GC_Sweep)/del/delroot/delraw/delnull/killnull(destructor calls del(NULL); also left armed for collections)/killraise(destructor leaves by an exception; armed for one explicit deletion)/mem/sweep(marked set)/collect(real '
             'GC_Mark)/stalemark(mark bits left by an interrupted mark phase, then collect/tnewx/sweep)/kill/stop/start over probe objects whose '
             'addresses are chosen in one residue class modulo the product of the first k registry sizes 5,11,23,53,101,197,389 (k = 3..7) plus strays; '
@@ -331,6 +351,9 @@ class C17(Spec):
                     'the two agree for every n < 3*10^8 and first differ above 2^53 (53-bit mantissa)',
                     'harness hook between GC_Mark and GC_Sweep (op tnewx): a `realloc` macro in h_reg.c routes the library\'s realloc calls through a callback',
                     'harness probe inside GC_Mark (stale mark bits): the Mark instance of the probe type, called by the root loop of GC_Mark',
+                    '`calloc` / `free` macros in h_reg.c: the block of a Plain object (type without an Alloc instance) is served from the arena, its free is recorded as the '
+                    'deallocation; the free hook takes the teardown observation at GC_Del\'s `free(gc->entries)`',
+                    'print_to / show_to, type_of and the Type name behind GC_Show\'s `%15s %p %s %s` row (C14\'s formatting; the harness rewrites %p as u<k>)',
                     'mmap at a fixed address, fork (libc) in the harness')
     assumptions = ('a new object\'s address is non-NULL, 8-byte aligned and differs from the live managed ones (malloc); counts < 2^53',
                    'registered objects are released through del / del_root or the collector, unregistered ones through del_raw; never through '
@@ -375,7 +398,13 @@ class C17(Spec):
         items = set(); prev_n = None
         for o in core.lines_with('O ', c_out):
             w = o.split()
-            if len(w) < 4 or w[1] not in ('new', 'newroot', 'tnew', 'tnewx', 'del', 'delroot', 'delraw', 'delrawm', 'delnull', 'sweep', 'sweepmod', 'collect', 'stalemark'): continue
+            if len(w) >= 5 and w[1] == 'show':
+                if any(('Probe' in x or 'Plain' in x) for x in w) or '#' in w[4]: items.add(hashlib.md5(o.encode()).hexdigest())
+                continue
+            if len(w) >= 4 and w[1] == 'teardown':
+                if ' fin= |' not in o: items.add(hashlib.md5(o.encode()).hexdigest())
+                continue
+            if len(w) < 4 or w[1] not in ('new', 'newroot', 'pnew', 'pnewroot', 'tnew', 'tnewx', 'del', 'delroot', 'delraw', 'delrawm', 'delnull', 'sweep', 'sweepmod', 'collect', 'stalemark'): continue
             if w[2] == 'raised': items.add(hashlib.md5(o.encode()).hexdigest())
             n = o.split(' n=')[1].split()[0] if ' n=' in o else None
             fin = o.split(' fin=')[1].split(' |')[0] if ' fin=' in o else ''
@@ -391,7 +420,14 @@ class C17(Spec):
             w = o.split()
             if len(w) < 2: continue
             acc['op_' + w[1]] = acc.get('op_' + w[1], 0) + 1
+            if w[1] == 'show' and len(w) >= 5:
+                acc['show_rows_listed'] = acc.get('show_rows_listed', 0) + sum(1 for x in o.split(',') if 'Probe' in x or 'Plain' in x)
+                if w[4].startswith('#'): acc['show_digests'] = acc.get('show_digests', 0) + 1
             if ' n=' not in o: continue
+            if w[1] == 'teardown':
+                if ' fin= |' not in o: acc['teardowns_that_freed'] = acc.get('teardowns_that_freed', 0) + 1
+                if ' e= ' not in o + ' ' and not o.endswith(' e='): acc['teardowns_with_roots_left'] = acc.get('teardowns_with_roots_left', 0) + 1
+                continue
             n = int(o.split(' n=')[1].split()[0])
             acc['max_nslots'] = max(acc.get('max_nslots', 0), n)
             if prev_n is not None and n > prev_n: acc['rehash_grow'] = acc.get('rehash_grow', 0) + 1
@@ -413,7 +449,10 @@ class C17(Spec):
             elif ' e=#' in o: acc['dumps_digest'] = acc.get('dumps_digest', 0) + 1
         for l in core.lines_with('R bad', m_out): acc['model_selfcheck_failures'] = acc.get('model_selfcheck_failures', 0) + 1
         for l in core.lines_with('I ', c_out):
-            for k in ('del_null_during_sweep', 'gc_mark_probes_clear', 'gc_mark_probes_stale', 'destructor_raises', 'destructor_raises_in_release_loop'):
+            for k in ('del_null_during_sweep', 'gc_mark_probes_clear', 'gc_mark_probes_stale', 'destructor_raises', 'destructor_raises_in_release_loop',
+                      'alloc_own_standard', 'alloc_own_raw', 'alloc_own_root', 'alloc_default_standard', 'alloc_default_raw', 'alloc_default_root',
+                      'del_own_standard', 'del_own_raw', 'del_own_root', 'del_default_standard', 'del_default_raw', 'del_default_root',
+                      'arena_calloc', 'arena_free'):
                 if f' {k}=' in l: acc[k] = acc.get(k, 0) + int(l.split(f' {k}=')[1].split()[0])
     def model_selfcheck(self, case, m_out):
         bad = core.lines_with('R bad', m_out)
